@@ -251,18 +251,24 @@ def offsets_preserved(rep: Report, prog: Program, resolver: Resolver) -> None:
 
 def offset_composition(rep: Report, prog: Program, resolver: Resolver) -> None:
     """R10.8, package-wide (the CLI walks the tables on its own): wherever a zero-point offset - read from
-    `_offsets` or unpacked from a hop (scale, offset, unit) - is an operand of an addition, the other
-    operand is a product: value*ratio + offset.  Adding it to another offset or to a bare accumulator
-    composes two affine maps as if their ratios were 1."""
+    `_offsets`, unpacked from a hop (scale, offset, unit), or received as an argument from such a place -
+    is an operand of an addition, the other operand is a product: value*ratio + offset.  Adding it to
+    another offset or to a bare accumulator composes two affine maps as if their ratios were 1."""
     from ..cfg import CFG
     n = 0
+    work: Dict[str, Set[str]] = {}
     for q, fi in sorted(prog.functions.items()):
         if fi.module in ("hypothesis", "pytest") or fi.module not in ("conversions", "cli", ""):
             continue
-        src = ast.unparse(fi.node)
-        if "_offsets" not in src and fi.module != "conversions":
+        if "_offsets" not in ast.unparse(fi.node) and fi.module != "conversions":
             continue
-        offs: Set[str] = set()
+        work[q] = set()
+    done: Set[Tuple[str, frozenset]] = set()
+    queue = sorted(work)
+    while queue:
+        q = queue.pop(0)
+        fi = prog.functions[q]
+        offs: Set[str] = set(work.get(q, set()))
         for node in ast.walk(fi.node):
             if isinstance(node, ast.Assign) and len(node.targets) == 1 and isinstance(node.targets[0], ast.Name) and "_offsets" in ast.unparse(node.value) \
                     and not isinstance(node.value, (ast.Dict, ast.DictComp)):
@@ -275,9 +281,14 @@ def offset_composition(rep: Report, prog: Program, resolver: Resolver) -> None:
             if tgt is not None and isinstance(tgt, ast.Tuple) and len(tgt.elts) == 3 and isinstance(tgt.elts[1], ast.Name) and tgt.elts[1].id != "_" \
                     and _is_path(prog, resolver, fi, it):
                 offs.add(tgt.elts[1].id)
-        if not offs:
+        key = (q, frozenset(offs))
+        if not offs or key in done:
             continue
+        done.add(key)
         cfg = CFG(fi.node)
+
+        def is_off(e: ast.AST) -> bool:
+            return (isinstance(e, ast.Name) and e.id in offs) or ("_offsets" in ast.unparse(e) and not isinstance(e, ast.Name))
 
         def is_product(e: ast.AST, at: Optional[int], depth: int = 0) -> bool:
             if isinstance(e, ast.Call) and ast.unparse(e.func) in ("_mul", "_div"):
@@ -288,18 +299,29 @@ def offset_composition(rep: Report, prog: Program, resolver: Resolver) -> None:
                 ds = cfg.reaching_defs(at, e.id)
                 return bool(ds) and all(d is not None and isinstance(d, ast.Assign) and is_product(d.value, cfg.node_of(d), depth + 1) for d in ds)
             return False
+        # offsets handed to a package function: continue there
+        for cs in resolver.callsites(q):
+            if cs.kind != "call" or not cs.targets:
+                continue
+            for t in cs.targets:
+                if t not in prog.functions or prog.functions[t].module not in ("conversions", "cli", ""):
+                    continue
+                if prog.functions[t].name in ("_add", "_sub", "_mul", "_div", "_pow"):
+                    continue   # the Decimal-preserving operators themselves: the call site is what is judged
+                ps = prog.functions[t].params()
+                if cs.bound and ps:
+                    ps = ps[1:]
+                passed = {ps[i] for i, a in enumerate(cs.args) if i < len(ps) and is_off(a)} | {k for k, v in cs.kwargs.items() if is_off(v) and k in ps}
+                if passed and not passed <= work.get(t, set()):
+                    work[t] = work.get(t, set()) | passed
+                    queue.append(t)
         for node in ast.walk(fi.node):
             a = b = None
             if isinstance(node, ast.Call) and ast.unparse(node.func) == "_add" and len(node.args) == 2:
                 a, b = node.args
             elif isinstance(node, ast.BinOp) and isinstance(node.op, ast.Add):
                 a, b = node.left, node.right
-            if a is None:
-                continue
-
-            def is_off(e: ast.AST) -> bool:
-                return (isinstance(e, ast.Name) and e.id in offs) or ("_offsets" in ast.unparse(e) and not isinstance(e, ast.Name))
-            if not (is_off(a) or is_off(b)):
+            if a is None or not (is_off(a) or is_off(b)):
                 continue
             other = b if is_off(a) else a
             n += 1
